@@ -65,6 +65,32 @@
 //!   last octets are missing.  Every diff is also read through the `ZoneDiff`
 //!   trait and compared with its fields; ZoneUpdater::is_finished must agree
 //!   with the interpreter.
+//! Part L (TTL axis): every zone comparison above is TTL-exact (a record of
+//!   an observation is owner, type, TTL, RDATA), but parts R..W hold one TTL
+//!   and one SOA.  Part L runs the same parts with the same oracles over a
+//!   TTL universe: a.z holds nothing or {A, Ax2, TXT} under each TTL of the
+//!   menu {3600, 300, 0, 2^31-1}, b.a.z nothing or a TXT RRset with TTL 300
+//!   (thorough: or 3600) - so an RRset changes only its TTL (raised, lowered),
+//!   changes TTL while it gains / loses / replaces records, appears or
+//!   disappears, alone or next to a second changing RRset - and over an SOA
+//!   menu (4 SOA TTLs, 2 timer sets; every plan "variant of version 1 x
+//!   variant of version 2 [x variant of version 3]") crossed with 5 content
+//!   pairs including "nothing but the SOA changes".  IXFR streams come in
+//!   three forms: RR granular per RFC 1995 4 (TTL change = delete with the
+//!   old TTL + add with the new one), RRset granular, and "added records carry
+//!   the new TTL" (an RRset that keeps and gains records is described by the
+//!   records it loses and gains only; since all RRs of an RRset share one
+//!   TTL, RFC 2181 5.2, and added RRs are RRs of the new version, the RRset
+//!   has the TTL of the added RRs afterwards - the reference and the diff
+//!   application of the model read it that way).  Where a damaged stream
+//!   does not settle the TTL of an RRset (mixed TTLs inside one RRset, a
+//!   deleted RR claiming a TTL the RRset does not have) the TTL of that
+//!   RRset is left out of the comparisons.  Parts: L/R (all pairs of the TTL
+//!   universe, all splits up to 6 [8] RRs; 2-step through every mid and
+//!   faults on a 7-zone sub-universe), L/SOA, L/D (TTL edit alphabet, edit
+//!   sequences <= 2 [3 on the sub-universe], SOA plans), L/S (real sender
+//!   edited with the write interface, 12 request kinds), L/W, L/H.
+//!   `C10_ONLY_L=1` runs part L only (development aid).
 //! Serial axis: model serials are logical (1, 2, 3 = versions of a history);
 //!   a scheme (start, step) maps them to SOA serials.  Scheme 0 is 1,2,3; seven
 //!   more cross the 2^32 wrap (FFFFFFFF->0->1, FFFFFFFF->1->3, FFFFFFFE->
@@ -125,6 +151,9 @@ type SName = Name<Bytes>;
 type SData = ZoneRecordData<Bytes, SName>;
 
 const TTL: u32 = 3600;
+/// The TTL menu of the TTL axis (part L).  A record of the model carries an
+/// index into it; index 0 is the TTL of everything outside part L.
+const TTLS: [u32; 4] = [TTL, 300, 0, 0x7FFF_FFFF];
 const OWNERS: [&str; 6] = ["z.", "a.z.", "b.a.z.", "c.z.", "x.y.", "y."]; // the last two are outside the zone (fault / foreign request only)
 const OWNERS_NODOT: [&str; 6] = ["z", "a.z", "b.a.z", "c.z", "x.y", "y"];
 
@@ -143,6 +172,8 @@ enum RD {
 struct MRec {
     owner: u8,
     rd: RD,
+    /// index into TTLS; all records of one RRset of a zone carry the same
+    ttl: u8,
 }
 
 impl RD {
@@ -156,12 +187,63 @@ impl RD {
 }
 
 fn soa(serial: u32) -> MRec {
-    MRec { owner: 0, rd: RD::Soa(serial) }
+    MRec { owner: 0, rd: RD::Soa(serial), ttl: SOAVS[soav(serial)].0 }
 }
 
-/// kinds: 0 none, 1 A{1}, 2 A{1,2}, 3 TXT{1}, 4 A{3} (kind 4 only in part D)
+// ---- the SOA axis: TTL and timers of the SOA of every version ----------
+//
+// The SOA of logical version s (1, 2, 3) is variant SOAV[s-1] of this menu:
+// (index into TTLS, [refresh, retry, expire, minimum]).  Variant 0 is the SOA
+// of everything outside part L; any other logical serial has variant 0.
+const SOAVS: [(u8, [u32; 4]); 6] = [
+    (0, [7200, 900, 86400, 300]),
+    (1, [7200, 900, 86400, 300]),              // only the TTL of the SOA differs
+    (2, [7200, 900, 86400, 300]),
+    (3, [7200, 900, 86400, 300]),
+    (0, [3600, 600, 604800, 0]),               // only the timers differ
+    (1, [1, 0x7FFF_FFFF, 0, 0x7FFF_FFFF]),     // both
+];
+
+thread_local! {
+    static SOAV: std::cell::Cell<[u8; 3]> = const { std::cell::Cell::new([0; 3]) };
+    static UNIVERSE: std::cell::Cell<u8> = const { std::cell::Cell::new(0) };
+}
+
+fn soa_plan() -> [u8; 3] {
+    SOAV.with(|s| s.get())
+}
+
+fn soav(serial: u32) -> usize {
+    if (1..=3).contains(&serial) {
+        soa_plan()[serial as usize - 1] as usize
+    } else {
+        0
+    }
+}
+
+/// Run `f` with the given SOA variants of versions 1, 2, 3 in force on this thread.
+fn with_soa_plan<T>(p: [u8; 3], f: impl FnOnce() -> T) -> T {
+    let prev = SOAV.with(|s| s.replace(p));
+    let r = f();
+    SOAV.with(|s| s.set(prev));
+    r
+}
+
+fn plan_from_json(v: &Value) -> [u8; 3] {
+    let mut p = [0u8; 3];
+    if let Some(a) = v.as_array() {
+        for (i, x) in a.iter().take(3).enumerate() {
+            p[i] = (x.as_u64().unwrap_or(0) as u8).min(SOAVS.len() as u8 - 1);
+        }
+    }
+    p
+}
+
+/// kinds: 0 none, 1 A{1}, 2 A{1,2}, 3 TXT{1}, 4 A{3} (kind 4 only in part D).
+/// A zone description holds per name `kind | ttl_index << 3` (see `kt`): the
+/// 64-zone universe has TTL index 0 everywhere, part L the others as well.
 fn kind_rds(kind: u8) -> Vec<RD> {
-    match kind {
+    match kind & 7 {
         0 => vec![],
         1 => vec![RD::A(1)],
         2 => vec![RD::A(1), RD::A(2)],
@@ -173,6 +255,11 @@ fn kind_rds(kind: u8) -> Vec<RD> {
 
 type Kinds = [u8; 3];
 
+/// RRset kind `kind` with TTL TTLS[ttl]
+const fn kt(kind: u8, ttl: u8) -> u8 {
+    kind | ttl << 3
+}
+
 fn kinds_of(i: usize) -> Kinds {
     [(i % 4) as u8, ((i / 4) % 4) as u8, (i / 16) as u8]
 }
@@ -182,18 +269,81 @@ fn zone_recs(k: Kinds) -> BTreeSet<MRec> {
     let mut s = BTreeSet::new();
     for (n, kind) in k.iter().enumerate() {
         for rd in kind_rds(*kind) {
-            s.insert(MRec { owner: n as u8 + 1, rd });
+            s.insert(MRec { owner: n as u8 + 1, rd, ttl: *kind >> 3 });
         }
     }
     s
 }
 
-fn rrsets_of(recs: &BTreeSet<MRec>) -> BTreeMap<(u8, u16), BTreeSet<RD>> {
-    let mut m: BTreeMap<(u8, u16), BTreeSet<RD>> = BTreeMap::new();
+/// (owner, type) -> (TTL index, record data) of every RRset
+fn rrsets_of(recs: &BTreeSet<MRec>) -> BTreeMap<(u8, u16), (u8, BTreeSet<RD>)> {
+    let mut m: BTreeMap<(u8, u16), (u8, BTreeSet<RD>)> = BTreeMap::new();
     for r in recs {
-        m.entry((r.owner, r.rd.rtype())).or_default().insert(r.rd);
+        let e = m.entry((r.owner, r.rd.rtype())).or_default();
+        e.0 = r.ttl;
+        e.1.insert(r.rd);
     }
     m
+}
+
+/// The zones mids of 2-step streams and targets of second updates are drawn
+/// from: 0 = the 64-zone universe, 1.. = the universes of part L.
+fn universe() -> Vec<Kinds> {
+    match UNIVERSE.with(|u| u.get()) {
+        0 => (0..64).map(kinds_of).collect(),
+        1 => ttl_universe(false),
+        2 => ttl_universe(true),
+        3 => ttl_small_universe(),
+        _ => soa_axis_zones(),
+    }
+}
+
+fn universe_id() -> u8 {
+    UNIVERSE.with(|u| u.get())
+}
+
+fn with_universe<T>(u: u8, f: impl FnOnce() -> T) -> T {
+    let prev = UNIVERSE.with(|c| c.replace(u));
+    let r = f();
+    UNIVERSE.with(|c| c.set(prev));
+    r
+}
+
+/// Part L: a.z holds nothing or one of {A{1}, A{1,2}, TXT} under every TTL of
+/// the menu (13 states); b.a.z holds nothing or a TXT RRset with TTL 300
+/// (`wide`: or 3600), so that a second RRset can change (its TTL only, too)
+/// in the same version; c.z holds nothing.
+fn ttl_universe(wide: bool) -> Vec<Kinds> {
+    let mut xs = vec![0u8];
+    for k in 1..=3u8 {
+        for t in 0..TTLS.len() as u8 {
+            xs.push(kt(k, t));
+        }
+    }
+    let ys: &[u8] = if wide { &[0, kt(3, 1), kt(3, 0)] } else { &[0, kt(3, 1)] };
+    let mut v = vec![];
+    for y in ys {
+        for x in &xs {
+            v.push([*x, *y, 0]);
+        }
+    }
+    v
+}
+
+/// a.z: nothing, A{1} or A{1,2} under three TTLs
+fn ttl_small_universe() -> Vec<Kinds> {
+    let mut v = vec![[0u8, 0, 0]];
+    for k in 1..=2u8 {
+        for t in [0u8, 1, 3] {
+            v.push([kt(k, t), 0, 0]);
+        }
+    }
+    v
+}
+
+/// the contents the SOA axis is crossed with
+fn soa_axis_zones() -> Vec<Kinds> {
+    vec![[0, 0, 0], [1, 0, 0], [kt(2, 1), 0, 0]]
 }
 
 fn dist(a: Kinds, b: Kinds) -> usize {
@@ -263,12 +413,14 @@ fn serial_newer(b: u32, a: u32) -> bool {
 }
 
 fn soa_rdata(serial: u32) -> Vec<u8> {
-    soa_rdata_actual(actual(serial))
+    soa_rdata_actual(actual(serial), soav(serial))
 }
 
-fn soa_rdata_actual(serial: u32) -> Vec<u8> {
+/// SOA RDATA with the given SOA serial and the timers of variant `variant`
+fn soa_rdata_actual(serial: u32, variant: usize) -> Vec<u8> {
     let mut v = vec![2, b'n', b's', 1, b'z', 0, 1, b'h', 1, b'z', 0];
-    for x in [serial, 7200, 900, 86400, 300] {
+    v.extend_from_slice(&serial.to_be_bytes());
+    for x in SOAVS[variant].1 {
         v.extend_from_slice(&x.to_be_bytes());
     }
     v
@@ -280,7 +432,7 @@ fn crec(r: MRec) -> CRec {
         RD::A(x) => vec![10, 0, 0, x],
         RD::Txt(x) => vec![2, b't', b'0' + x],
     };
-    CRec { owner: OWNERS_NODOT[r.owner as usize].to_string(), rtype: r.rd.rtype(), ttl: TTL, rdata }
+    CRec { owner: OWNERS_NODOT[r.owner as usize].to_string(), rtype: r.rd.rtype(), ttl: TTLS[r.ttl as usize], rdata }
 }
 
 fn model_obs(serial: u32, recs: &BTreeSet<MRec>) -> Obs {
@@ -310,25 +462,45 @@ fn axfr_seq(serial: u32, recs: &BTreeSet<MRec>) -> Vec<MRec> {
 }
 
 /// versions[0] is the client's version, versions.last() the server's.
-/// `rrset_granular`: a changed RRset is deleted and re-added as a whole.
-fn ixfr_seq(versions: &[(u32, BTreeSet<MRec>)], rrset_granular: bool) -> Vec<MRec> {
+/// `form` 0: RR granular per RFC 1995 4 (a record whose TTL changes is
+///   deleted with the old TTL and added with the new one, so an RRset whose
+///   TTL changes is deleted and added as a whole);
+/// `form` 1: a changed RRset is deleted and re-added as a whole;
+/// `form` 2: like 0, but an RRset that keeps records, gains records and gets
+///   another TTL is described by the records it loses (old TTL) and the
+///   records it gains (new TTL) only - the shape of the difference sets of
+///   the in-memory zone.  All records of an RRset have one TTL (RFC 2181
+///   5.2) and the added records are records of the new version (RFC 1995 4),
+///   so the new version's RRset has the TTL of the added records.
+fn ixfr_seq(versions: &[(u32, BTreeSet<MRec>)], form: u8) -> Vec<MRec> {
     let last = versions.last().unwrap();
     let mut v = vec![soa(last.0)];
     for w in versions.windows(2) {
         let (from, to) = (&w[0], &w[1]);
         let (mut dels, mut adds): (Vec<MRec>, Vec<MRec>);
-        if rrset_granular {
+        if form != 0 {
             let (rf, rt) = (rrsets_of(&from.1), rrsets_of(&to.1));
             dels = vec![];
             adds = vec![];
-            for (k, set) in &rf {
-                if rt.get(k) != Some(set) {
-                    dels.extend(set.iter().map(|rd| MRec { owner: k.0, rd: *rd }));
+            let keys: BTreeSet<(u8, u16)> = rf.keys().chain(rt.keys()).cloned().collect();
+            let none = (0u8, BTreeSet::new());
+            for k in keys {
+                let (f, t) = (rf.get(&k).unwrap_or(&none), rt.get(&k).unwrap_or(&none));
+                if f == t {
+                    continue;
                 }
-            }
-            for (k, set) in &rt {
-                if rf.get(k) != Some(set) {
-                    adds.extend(set.iter().map(|rd| MRec { owner: k.0, rd: *rd }));
+                let keeps = f.1.intersection(&t.1).next().is_some();
+                let gains = t.1.difference(&f.1).next().is_some();
+                let whole = if form == 1 { true } else { f.0 != t.0 && !(keeps && gains) };
+                for rd in &f.1 {
+                    if whole || !t.1.contains(rd) {
+                        dels.push(MRec { owner: k.0, rd: *rd, ttl: f.0 });
+                    }
+                }
+                for rd in &t.1 {
+                    if whole || !f.1.contains(rd) {
+                        adds.push(MRec { owner: k.0, rd: *rd, ttl: t.0 });
+                    }
                 }
             }
         } else {
@@ -354,35 +526,52 @@ fn name(i: u8) -> SName {
 
 fn data(rd: RD) -> SData {
     match rd {
-        RD::Soa(s) => ZoneRecordData::Soa(Soa::new(
-            Name::from_str("ns.z.").unwrap(),
-            Name::from_str("h.z.").unwrap(),
-            Serial(actual(s)),
-            Ttl::from_secs(7200),
-            Ttl::from_secs(900),
-            Ttl::from_secs(86400),
-            Ttl::from_secs(300),
-        )),
+        RD::Soa(s) => soa_data(actual(s), soav(s)),
         RD::A(x) => ZoneRecordData::A(A::new([10, 0, 0, x].into())),
         RD::Txt(x) => ZoneRecordData::Txt(Txt::build_from_slice(&[b't', b'0' + x]).unwrap()),
     }
 }
 
-fn shared_rrset(rds: &[RD]) -> SharedRrset {
+/// the SOA with the given SOA serial and the timers of variant `variant`
+fn soa_data(serial: u32, variant: usize) -> SData {
+    let t = SOAVS[variant].1;
+    ZoneRecordData::Soa(Soa::new(
+        Name::from_str("ns.z.").unwrap(),
+        Name::from_str("h.z.").unwrap(),
+        Serial(serial),
+        Ttl::from_secs(t[0]),
+        Ttl::from_secs(t[1]),
+        Ttl::from_secs(t[2]),
+        Ttl::from_secs(t[3]),
+    ))
+}
+
+/// `ttl`: index into TTLS
+fn shared_rrset(rds: &[RD], ttl: u8) -> SharedRrset {
     let d0 = data(rds[0]);
-    let mut s = Rrset::new(d0.rtype(), Ttl::from_secs(TTL));
+    let mut s = Rrset::new(d0.rtype(), Ttl::from_secs(TTLS[ttl as usize]));
     for rd in rds {
         s.push_data(data(*rd));
     }
     SharedRrset::new(s)
 }
 
+/// the SOA RRset of logical version `serial`
+fn soa_rrset(serial: u32) -> SharedRrset {
+    shared_rrset(&[RD::Soa(serial)], soa(serial).ttl)
+}
+
+/// the RRset `kind | ttl << 3` describes
+fn kind_rrset(k: u8) -> SharedRrset {
+    shared_rrset(&kind_rds(k), k >> 3)
+}
+
 fn build_zone(serial: u32, recs: &BTreeSet<MRec>) -> Zone {
     let mut b = ZoneBuilder::new(name(0), Class::IN);
-    b.insert_rrset(&name(0), shared_rrset(&[RD::Soa(serial)])).unwrap();
-    for ((o, _), set) in rrsets_of(recs) {
+    b.insert_rrset(&name(0), soa_rrset(serial)).unwrap();
+    for ((o, _), (ttl, set)) in rrsets_of(recs) {
         let rds: Vec<RD> = set.into_iter().collect();
-        b.insert_rrset(&name(o), shared_rrset(&rds)).unwrap();
+        b.insert_rrset(&name(o), shared_rrset(&rds, ttl)).unwrap();
     }
     b.build()
 }
@@ -447,7 +636,7 @@ fn build_msg(s: &MsgSpec) -> Bytes {
     }
     let mut a = q.answer();
     for r in &s.recs {
-        a.push((name(r.owner), Class::IN, Ttl::from_secs(TTL), data(r.rd))).unwrap();
+        a.push((name(r.owner), Class::IN, Ttl::from_secs(TTLS[r.ttl as usize]), data(r.rd))).unwrap();
     }
     let mut au = a.authority();
     for _ in 0..s.ns {
@@ -895,6 +1084,21 @@ struct RefOut {
     final_zone: Option<Obs>,
     completed: Vec<Obs>,
     tainted: bool,
+    /// RRsets whose TTL the (damaged) stream does not settle: RRs of one RRset
+    /// with different TTLs in an AXFR or among the additions of one difference
+    /// sequence, a deleted or re-added RR that is there with another TTL.
+    /// Zone comparisons leave the TTL of these RRsets out.
+    ttl_open: BTreeSet<(String, u16)>,
+}
+
+/// `o` with the TTLs of the RRsets in `open` blanked
+fn blank_ttls(o: &Obs, open: &BTreeSet<(String, u16)>) -> Obs {
+    if open.is_empty() {
+        return o.clone();
+    }
+    let mut v: Obs = o.iter().map(|c| if open.contains(&(c.owner.clone(), c.rtype)) { CRec { ttl: 0, ..c.clone() } } else { c.clone() }).collect();
+    v.sort();
+    v
 }
 
 fn crec_from_raw(msg: &[u8], r: &wire::RawRecord) -> Result<CRec, String> {
@@ -984,10 +1188,25 @@ fn reference(msgs: &[Bytes], old: &Obs) -> RefOut {
     let mut final_zone: Option<Obs> = None;
     let mut rr_total = 0usize;
     let mut closing_mismatch = false;
+    // records added by the difference sequence being read
+    let mut seq_added: BTreeSet<CRec> = BTreeSet::new();
+    let mut ttl_open: BTreeSet<(String, u16)> = BTreeSet::new();
+    // AXFR body: an RR of an RRset that already holds RRs with another TTL (RFC 2181 5.2
+    // wants one TTL per RRset and leaves the handling to the receiver); the same RR
+    // with another TTL is a duplicate
+    fn axfr_insert(newset: &mut BTreeSet<CRec>, c: CRec, ttl_open: &mut BTreeSet<(String, u16)>, tainted: &mut bool) {
+        if newset.iter().any(|w| w.owner == c.owner && w.rtype == c.rtype && w.ttl != c.ttl) {
+            ttl_open.insert((c.owner.clone(), c.rtype));
+            *tainted = true;
+        }
+        if !newset.iter().any(|w| w.owner == c.owner && w.rtype == c.rtype && w.rdata == c.rdata) {
+            newset.insert(c);
+        }
+    }
     let mut xfr = "unknown";
     macro_rules! invalid {
         ($r:expr) => {
-            return RefOut { verdict: V::Invalid, reason: $r, xfr, final_zone: None, completed, tainted }
+            return RefOut { verdict: V::Invalid, reason: $r, xfr, final_zone: None, completed, tainted, ttl_open }
         };
     }
     'msgs: for (i, m) in msgs.iter().enumerate() {
@@ -1073,7 +1292,7 @@ fn reference(msgs: &[Bytes], old: &Obs) -> RefOut {
                 St::IxfrSecond => {
                     if is_soa {
                         if Some(&c) == soa0.as_ref() {
-                            return RefOut { verdict: V::Open, reason: "ixfr-soa-soa", xfr, final_zone: None, completed, tainted };
+                            return RefOut { verdict: V::Open, reason: "ixfr-soa-soa", xfr, final_zone: None, completed, tainted, ttl_open };
                         }
                         if Some(&c) != old_soa.as_ref() {
                             tainted = true; // difference sequence for another base version
@@ -1081,7 +1300,7 @@ fn reference(msgs: &[Bytes], old: &Obs) -> RefOut {
                         st = St::IxfrDel;
                     } else {
                         xfr = "ixfr-axfr-style";
-                        newset.insert(c);
+                        axfr_insert(&mut newset, c, &mut ttl_open, &mut tainted);
                         st = St::AxfrBody;
                     }
                 }
@@ -1096,15 +1315,30 @@ fn reference(msgs: &[Bytes], old: &Obs) -> RefOut {
                             tainted = true; // a foreign SOA inside an AXFR body
                         }
                     } else {
-                        newset.insert(c); // RFC 5936 2.2: duplicates MUST be ignored
+                        axfr_insert(&mut newset, c, &mut ttl_open, &mut tainted); // RFC 5936 2.2: duplicates MUST be ignored
                     }
                 }
                 St::IxfrDel => {
                     if is_soa {
                         seq_new = Some(c);
+                        seq_added.clear();
                         st = St::IxfrAdd;
-                    } else if !work.remove(&c) {
+                    } else if work.iter().any(|w| w.owner == c.owner && w.rtype == c.rtype && w.ttl != c.ttl) {
+                        // the deleted RR claims a TTL the RRset does not have in the version the
+                        // sequence starts from: the stream does not fit that version (open either
+                        // way), and it does not settle the TTL of what is left of the RRset
                         tainted = true;
+                        ttl_open.insert((c.owner.clone(), c.rtype));
+                        if let Some(other) = work.iter().find(|w| w.owner == c.owner && w.rtype == c.rtype && w.rdata == c.rdata).cloned() {
+                            work.remove(&other);
+                        }
+                    } else if !work.remove(&c) {
+                        // absent, or present with another TTL: open either way
+                        tainted = true;
+                        if let Some(other) = work.iter().find(|w| w.owner == c.owner && w.rtype == c.rtype && w.rdata == c.rdata).cloned() {
+                            work.remove(&other);
+                            ttl_open.insert((c.owner.clone(), c.rtype));
+                        }
                     }
                 }
                 St::IxfrAdd => {
@@ -1130,8 +1364,25 @@ fn reference(msgs: &[Bytes], old: &Obs) -> RefOut {
                             }
                             st = St::IxfrDel;
                         }
-                    } else if !work.insert(c) {
-                        tainted = true;
+                    } else {
+                        // The added RR is an RR of the newer version (RFC 1995 4) and all
+                        // RRs of an RRset have one TTL (RFC 2181 5.2): records the RRset
+                        // keeps from the older version have the TTL of the added RR in the
+                        // newer one.  RRs of one RRset added with different TTLs describe
+                        // no version of a zone.
+                        let mates: Vec<CRec> = work.iter().filter(|w| w.owner == c.owner && w.rtype == c.rtype && w.ttl != c.ttl).cloned().collect();
+                        for w in mates {
+                            if seq_added.contains(&w) || w.rdata == c.rdata {
+                                tainted = true;
+                                ttl_open.insert((c.owner.clone(), c.rtype));
+                            }
+                            work.remove(&w);
+                            work.insert(CRec { ttl: c.ttl, ..w });
+                        }
+                        if !work.insert(c.clone()) {
+                            tainted = true;
+                        }
+                        seq_added.insert(c);
                     }
                 }
             }
@@ -1146,13 +1397,13 @@ fn reference(msgs: &[Bytes], old: &Obs) -> RefOut {
     }
     if !ended {
         if qtype0 == 251 && rr_total == 1 && msgs.len() == 1 {
-            return RefOut { verdict: V::UpToDate, reason: "ixfr-single-soa", xfr, final_zone: None, completed, tainted };
+            return RefOut { verdict: V::UpToDate, reason: "ixfr-single-soa", xfr, final_zone: None, completed, tainted, ttl_open };
         }
         invalid!("incomplete");
     }
     if closing_mismatch && tainted {
         // a stream that is garbled in more than one way: nothing but "no panic" is demanded
-        return RefOut { verdict: V::Open, reason: "garbled", xfr, final_zone: None, completed, tainted };
+        return RefOut { verdict: V::Open, reason: "garbled", xfr, final_zone: None, completed, tainted, ttl_open };
     }
     let verdict = if trailing || tainted || closing_mismatch { V::Either } else { V::Valid };
     let reason = if closing_mismatch {
@@ -1164,7 +1415,7 @@ fn reference(msgs: &[Bytes], old: &Obs) -> RefOut {
     } else {
         "ok"
     };
-    RefOut { verdict, reason, xfr, final_zone, completed, tainted }
+    RefOut { verdict, reason, xfr, final_zone, completed, tainted, ttl_open }
 }
 
 // ====================================================================
@@ -1239,21 +1490,92 @@ fn obs_hash(o: &Obs) -> u64 {
         v.extend_from_slice(c.owner.as_bytes());
         v.push(0);
         v.extend_from_slice(&c.rtype.to_be_bytes());
+        v.extend_from_slice(&c.ttl.to_be_bytes());
         v.extend_from_slice(&c.rdata);
         v.push(0xff);
     }
     fnv(&v)
 }
 
+/// Apply a difference set to zone content.  Removed records are taken out;
+/// added records are put in, and since all records of an RRset have one TTL
+/// (RFC 2181 5.2) the records an RRset keeps get the TTL of the records added
+/// to it.  (A removed record that is only there with another TTL is left
+/// alone: the diff does not describe the content it is applied to.)
 fn apply_diff(before: &Obs, d: &DiffObs) -> BTreeSet<CRec> {
     let mut s: BTreeSet<CRec> = before.iter().cloned().collect();
     for r in &d.removed {
         s.remove(r);
     }
     for a in &d.added {
+        let mates: Vec<CRec> = s.iter().filter(|w| w.owner == a.owner && w.rtype == a.rtype && w.ttl != a.ttl).cloned().collect();
+        for w in mates {
+            s.remove(&w);
+            s.insert(CRec { ttl: a.ttl, ..w });
+        }
         s.insert(a.clone());
     }
     s
+}
+
+/// If `got` and `want` hold the same records and differ only in TTLs: the
+/// structural class of the first RRset whose TTL differs - how TTL and records
+/// of that RRset change from `old` to `want`, and what `got` has instead.
+fn ttl_cause(old: &[CRec], want: &[CRec], got: &[CRec]) -> Option<String> {
+    let strip = |o: &[CRec]| {
+        let mut v: Vec<(String, u16, Vec<u8>)> = o.iter().map(|c| (c.owner.clone(), c.rtype, c.rdata.clone())).collect();
+        v.sort();
+        v
+    };
+    if strip(got) != strip(want) {
+        return None;
+    }
+    let rrset = |o: &[CRec], owner: &str, rtype: u16| -> (Option<u32>, BTreeSet<Vec<u8>>) {
+        let mut ttl = None;
+        let mut set = BTreeSet::new();
+        for c in o.iter().filter(|c| c.owner == owner && c.rtype == rtype) {
+            ttl = Some(c.ttl);
+            set.insert(c.rdata.clone());
+        }
+        (ttl, set)
+    };
+    let mut wsorted: Vec<&CRec> = want.iter().collect();
+    wsorted.sort();
+    for w in wsorted {
+        let (gt, _) = rrset(got, &w.owner, w.rtype);
+        if gt == Some(w.ttl) && got.iter().filter(|c| c.owner == w.owner && c.rtype == w.rtype).all(|c| c.ttl == w.ttl) {
+            continue;
+        }
+        let (ot, oset) = rrset(old, &w.owner, w.rtype);
+        let (_, wset) = rrset(want, &w.owner, w.rtype);
+        let ttl_ch = match ot {
+            None => "rrset-new",
+            Some(t) if t < w.ttl => "ttl-raised",
+            Some(t) if t > w.ttl => "ttl-lowered",
+            Some(_) => "ttl-unchanged",
+        };
+        let keeps = oset.intersection(&wset).next().is_some();
+        let gains = wset.difference(&oset).next().is_some();
+        let loses = oset.difference(&wset).next().is_some();
+        let rec_ch = match (ot.is_some(), keeps, gains, loses) {
+            (false, ..) => "records-new",
+            (true, true, false, false) => "records-unchanged",
+            (true, true, true, false) => "records-added",
+            (true, true, false, true) => "records-removed",
+            (true, true, true, true) => "records-added-and-removed",
+            (true, false, ..) => "records-replaced",
+        };
+        let has = if gt.is_some() && gt == ot { "has-old-ttl" } else { "has-other-ttl" };
+        let what = if w.rtype == 6 { "soa" } else { "rrset" };
+        return Some(format!("{what}-ttl-differs({ttl_ch},{rec_ch},{has})"));
+    }
+    None
+}
+
+/// diff(before) and after hold the same records with different TTLs: the class of the first such RRset
+fn diff_ttl_cause(before: &Obs, d: &DiffObs, after: &Obs) -> Option<String> {
+    let got: Vec<CRec> = apply_diff(before, d).into_iter().collect();
+    ttl_cause(before, after, &got)
 }
 
 /// Classify the difference between diff(before) and after.
@@ -1303,6 +1625,7 @@ fn case_json(c: &Case) -> Value {
         "part": if c.part == "S" { "F" } else { c.part },
         "label": c.label,
         "scheme": scheme(),
+        "soa_plan": soa_plan(),
         "old": c.old_kinds,
         "old_serial": c.old_serial,
         "fault": c.fault,
@@ -1325,11 +1648,28 @@ fn judge(sh: &Shared, c: &Case, verbose: bool) {
         Some((o, _)) => o.clone(),
         None => model_obs(c.old_serial, c.old),
     };
-    let refo = reference(&c.msgs, &old_obs);
-    let real = match &c.custom_old {
+    let mut refo = reference(&c.msgs, &old_obs);
+    let mut real = match &c.custom_old {
         Some((_, mk)) => run_real(&|| mk(), &c.msgs, c.via_client),
         None => run_real(&|| build_zone(c.old_serial, c.old), &c.msgs, c.via_client),
     };
+    let mut old_obs = old_obs;
+    if !refo.ttl_open.is_empty() {
+        // TTLs the damaged stream does not settle are left out of every comparison below
+        lcount("ttl-left-open-by-the-stream");
+        let open = refo.ttl_open.clone();
+        refo.final_zone = refo.final_zone.as_ref().map(|z| blank_ttls(z, &open));
+        for v in refo.completed.iter_mut() {
+            *v = blank_ttls(v, &open);
+        }
+        real.final_obs = blank_ttls(&real.final_obs, &open);
+        real.pinned_before = blank_ttls(&real.pinned_before, &open);
+        for s in real.rec.snaps.iter_mut() {
+            *s = blank_ttls(s, &open);
+        }
+        old_obs = blank_ttls(&old_obs, &open);
+    }
+    let old_obs = old_obs;
     let det = c.part != "S";
     sh.stats.eval();
     LOCAL.with(|l| {
@@ -1412,9 +1752,10 @@ fn judge(sh: &Shared, c: &Case, verbose: bool) {
     if let Some(new) = &c.honest_new {
         if refo.verdict != V::Valid || refo.final_zone.as_ref() != Some(new) {
             if c.part == "S" {
+                let tc = refo.final_zone.as_ref().and_then(|f| ttl_cause(&old_obs, new, f)).map(|t| format!("|{t}")).unwrap_or_default();
                 report(
                     sh,
-                    &format!("C10|sender|{}|emitted-stream-is-not-a-valid-transfer-of-the-zone|{:?}({})", kind, refo.verdict, refo.reason),
+                    &format!("C10|sender|{}|emitted-stream-is-not-a-valid-transfer-of-the-zone|{:?}({}){tc}", kind, refo.verdict, refo.reason),
                     &|| {
                         format!(
                             "the response stream emitted by XfrMiddlewareSvc ({}) is read by the reference as {:?}/{} yielding {} but the sender holds {}",
@@ -1440,6 +1781,18 @@ fn judge(sh: &Shared, c: &Case, verbose: bool) {
         // every version the reference saw completed is a version of the sender's history
         for v in &refo.completed {
             if !c.honest_versions.contains(v) {
+                if c.part == "S" {
+                    // (the stream ends at the sender's zone, but a version on the way is none of the sender's)
+                    let prev = c.honest_versions.iter().filter(|h| h.iter().filter(|r| r.rtype == 6).eq(v.iter().filter(|r| r.rtype == 6))).next();
+                    let tc = prev.and_then(|p| ttl_cause(&old_obs, p, v)).map(|t| format!("|{t}")).unwrap_or_default();
+                    report(
+                        sh,
+                        &format!("C10|sender|{}|intermediate-version-of-the-emitted-stream-is-no-version-of-the-zone{tc}", kind),
+                        &|| format!("the difference sequences emitted by XfrMiddlewareSvc ({}) pass through {} which no version of the sender's zone equals", c.label, obs_json(v)),
+                        &cj,
+                    );
+                    return;
+                }
                 report(sh, "C10|MACHINERY|reference-completed-unknown-version", &|| "harness self-check".into(), &cj);
                 return;
             }
@@ -1471,6 +1824,8 @@ fn judge(sh: &Shared, c: &Case, verbose: bool) {
                     final_reported = true;
                     let cause = if &dedup(&got) == want {
                         "duplicate-rr-kept".to_string()
+                    } else if let Some(t) = ttl_cause(&old_obs, want, &got) {
+                        t
                     } else {
                         let (g, w): (BTreeSet<_>, BTreeSet<_>) = (got.iter().collect(), want.iter().collect());
                         let soa_only = g.symmetric_difference(&w).all(|c| c.rtype == 6);
@@ -1599,9 +1954,10 @@ fn judge(sh: &Shared, c: &Case, verbose: bool) {
         if let Some(k) = diff_mismatch(b, d, a) {
             let via = if real.rec.updates.contains(&"DeleteAll") { "axfr" } else { "ixfr" };
             lcount(&format!("diffs-returned-by-updater:wrong:{via}:{k}"));
+            let tc = diff_ttl_cause(b, d, a).map(|t| format!("|{t}")).unwrap_or_default();
             report(
                 sh,
-                &format!("C10|diff|via-updater|{via}"),
+                &format!("C10|diff|via-updater|{via}{tc}"),
                 &|| {
                     format!(
                         "the diff returned by ZoneUpdater::apply (serial {}->{}) applied to the content before the commit does not give the content after it ({k}): removed {} added {}; before {} after {}",
@@ -1644,6 +2000,10 @@ struct Bounds {
     wire_dist: usize,
     wire_all_splits_upto: usize,
     wire_faults: bool,
+    /// part F at all (part L runs it on a few pairs only)
+    faults: bool,
+    /// part L: the wider TTL universe, all SOA plans of three versions, deeper menus
+    ttl_wide: bool,
 }
 
 fn masks_for(n: usize, all_upto: usize, max_cuts: u32) -> Vec<u32> {
@@ -1682,14 +2042,17 @@ fn streams_for(old_k: Kinds, new_k: Kinds, b: &Bounds) -> Vec<Stream> {
         out.push(Stream { label: "ixfr-axfr-style".into(), qtype: 251, seq: axfr_seq(2, &new), new_obs: new2.clone(), versions: vec![old_v.clone(), new2.clone()], kinds: vec![old_k, new_k] });
     }
     let vs = vec![(1, old.clone()), (2, new.clone())];
-    let s1 = ixfr_seq(&vs, false);
-    let s1g = ixfr_seq(&vs, true);
+    let s1 = ixfr_seq(&vs, 0);
+    let s1g = ixfr_seq(&vs, 1);
+    let s1p = ixfr_seq(&vs, 2);
     out.push(Stream { label: "ixfr-1step".into(), qtype: 251, seq: s1.clone(), new_obs: new2.clone(), versions: vec![old_v.clone(), new2.clone()], kinds: vec![old_k, new_k] });
     if s1g != s1 {
         out.push(Stream { label: "ixfr-1step-rrset-granular".into(), qtype: 251, seq: s1g, new_obs: new2.clone(), versions: vec![old_v.clone(), new2.clone()], kinds: vec![old_k, new_k] });
     }
-    for mi in 0..64 {
-        let mk = kinds_of(mi);
+    if s1p != s1 {
+        out.push(Stream { label: "ixfr-1step-added-records-carry-new-ttl".into(), qtype: 251, seq: s1p, new_obs: new2.clone(), versions: vec![old_v.clone(), new2.clone()], kinds: vec![old_k, new_k] });
+    }
+    for mk in universe() {
         if dist(old_k, mk) <= b.mid_first && dist(mk, new_k) <= b.mid_second {
             let mid = zone_recs(mk);
             let vs = vec![(1, old.clone()), (2, mid.clone()), (3, new.clone())];
@@ -1697,11 +2060,22 @@ fn streams_for(old_k: Kinds, new_k: Kinds, b: &Bounds) -> Vec<Stream> {
             out.push(Stream {
                 label: format!("ixfr-2step/mid={:?}", mk),
                 qtype: 251,
-                seq: ixfr_seq(&vs, false),
+                seq: ixfr_seq(&vs, 0),
                 new_obs: new3.clone(),
-                versions: vec![old_v.clone(), model_obs(2, &mid), new3],
+                versions: vec![old_v.clone(), model_obs(2, &mid), new3.clone()],
                 kinds: vec![old_k, mk, new_k],
             });
+            let sp = ixfr_seq(&vs, 2);
+            if sp != ixfr_seq(&vs, 0) {
+                out.push(Stream {
+                    label: format!("ixfr-2step-added-records-carry-new-ttl/mid={:?}", mk),
+                    qtype: 251,
+                    seq: sp,
+                    new_obs: new3.clone(),
+                    versions: vec![old_v.clone(), model_obs(2, &mid), new3],
+                    kinds: vec![old_k, mk, new_k],
+                });
+            }
         }
     }
     out
@@ -1845,11 +2219,11 @@ fn apply_fault(specs: &[MsgSpec], f: &Fault) -> Option<Vec<MsgSpec>> {
                 return None;
             }
         }
-        Fault::FirstRrNotSoa => s[0].recs[0] = MRec { owner: 3, rd: RD::A(7) },
+        Fault::FirstRrNotSoa => s[0].recs[0] = MRec { owner: 3, rd: RD::A(7), ttl: 0 },
         Fault::ForeignOwner(i) => {
             // before a closing SOA, so that it is part of the transfer
             let at = s[i].recs.len().saturating_sub(1).max(if i == 0 { 1 } else { 0 }).min(s[i].recs.len());
-            s[i].recs.insert(at, MRec { owner: 4, rd: RD::A(8) });
+            s[i].recs.insert(at, MRec { owner: 4, rd: RD::A(8), ttl: 0 });
         }
         Fault::Chop(i) => s[i].chop = 3,
         Fault::FinalSoaSerial => {
@@ -1905,7 +2279,7 @@ fn run_pair(sh: &Shared, old_k: Kinds, new_k: Kinds, b: &Bounds) {
             }
         }
         // ---- part F: faults on a restricted split set
-        if d > b.fault_dist {
+        if d > b.fault_dist || !b.faults {
             continue;
         }
         if st.label.starts_with("ixfr-2step") && !(st.versions[1] != st.versions[0] || d == 0) {
@@ -1973,7 +2347,7 @@ fn op_alphabet() -> Vec<Op> {
 
 fn op_json(o: &Op) -> Value {
     match o {
-        Op::Upd(n, k) => json!({"op": "update_rrset", "owner": OWNERS[*n as usize], "kind": (["", "A{1}", "A{1,2}", "TXT", "A{3}"][*k as usize]), "n": n, "k": k}),
+        Op::Upd(n, k) => json!({"op": "update_rrset", "owner": OWNERS[*n as usize], "kind": (["", "A{1}", "A{1,2}", "TXT", "A{3}"][(*k & 7) as usize]), "ttl": TTLS[(*k >> 3) as usize], "n": n, "k": k}),
         Op::Rem(n, t) => json!({"op": "remove_rrset", "owner": OWNERS[*n as usize], "rtype": (["A", "TXT"][*t as usize]), "n": n, "t": t}),
         Op::RemAll => json!({"op": "remove_all"}),
     }
@@ -2002,7 +2376,7 @@ async fn run_edits(zone: &Zone, ops: &[Op], mode: u8) -> Result<Option<DiffObs>,
         match *op {
             Op::Upd(n, k) => {
                 let node = node_for(&root, n).await.map_err(|e| format!("update_child:{e}"))?;
-                node.update_rrset(shared_rrset(&kind_rds(k))).await.map_err(|e| format!("update_rrset:{e}"))?;
+                node.update_rrset(kind_rrset(k)).await.map_err(|e| format!("update_rrset:{e}"))?;
             }
             Op::Rem(n, t) => {
                 let node = node_for(&root, n).await.map_err(|e| format!("update_child:{e}"))?;
@@ -2012,7 +2386,7 @@ async fn run_edits(zone: &Zone, ops: &[Op], mode: u8) -> Result<Option<DiffObs>,
         }
     }
     if mode == 0 {
-        root.update_rrset(shared_rrset(&[RD::Soa(2)])).await.map_err(|e| format!("update_rrset(soa):{e}"))?;
+        root.update_rrset(soa_rrset(2)).await.map_err(|e| format!("update_rrset(soa):{e}"))?;
     }
     drop(root);
     let d = w.commit(mode == 1).await.map_err(|e| format!("commit:{e}"))?;
@@ -2029,7 +2403,7 @@ fn model_edits(old: &BTreeSet<MRec>, ops: &[Op]) -> (BTreeSet<MRec>, bool) {
         match *op {
             Op::Upd(n, k) => {
                 let rds = kind_rds(k);
-                m.insert((n, rds[0].rtype()), rds.into_iter().collect());
+                m.insert((n, rds[0].rtype()), (k >> 3, rds.into_iter().collect()));
             }
             Op::Rem(n, t) => {
                 m.remove(&(n, if t == 0 { 1 } else { 16 }));
@@ -2041,9 +2415,9 @@ fn model_edits(old: &BTreeSet<MRec>, ops: &[Op]) -> (BTreeSet<MRec>, bool) {
         }
     }
     let mut s = BTreeSet::new();
-    for ((o, _), set) in m {
+    for ((o, _), (ttl, set)) in m {
         for rd in set {
-            s.insert(MRec { owner: o, rd });
+            s.insert(MRec { owner: o, rd, ttl });
         }
     }
     (s, soa_removed)
@@ -2088,8 +2462,9 @@ fn run_diff_case(sh: &Shared, old_k: Kinds, ops: &[Op], mode: u8, verbose: bool)
         l.transitions += ops.len() as u64 + 1;
         l.states.insert(obs_hash(&after));
     });
-    let cj = || json!({"part": "D", "scheme": scheme(), "old": old_k, "ops": ops.iter().map(op_json).collect::<Vec<_>>(), "mode": mode});
+    let cj = || json!({"part": "D", "scheme": scheme(), "soa_plan": soa_plan(), "old": old_k, "ops": ops.iter().map(op_json).collect::<Vec<_>>(), "mode": mode});
     let mut key = vec![0xD, mode, scheme() as u8];
+    key.extend_from_slice(&soa_plan());
     key.extend_from_slice(&old_k);
     key.extend_from_slice(format!("{ops:?}").as_bytes());
     if !ops.is_empty() {
@@ -2099,7 +2474,9 @@ fn run_diff_case(sh: &Shared, old_k: Kinds, ops: &[Op], mode: u8, verbose: bool)
     // mode 0 writes the SOA of version 2; mode 1 lets commit bump the old serial by one
     let new_serial = if mode == 0 { actual(2) } else { actual(1).wrapping_add(1) };
     let mut want: Obs = want_recs.iter().map(|r| crec(*r)).collect();
-    want.push(CRec { owner: "z".into(), rtype: 6, ttl: TTL, rdata: soa_rdata_actual(new_serial) });
+    // (an explicitly written SOA is that of version 2; a bumped SOA is the old one with a new serial)
+    let new_variant = if mode == 0 { soav(2) } else { soav(1) };
+    want.push(CRec { owner: "z".into(), rtype: 6, ttl: TTLS[SOAVS[new_variant].0 as usize], rdata: soa_rdata_actual(new_serial, new_variant) });
     want.sort();
     if verbose {
         println!("diff case: old={old_k:?} ops={ops:?} mode={mode}");
@@ -2117,9 +2494,10 @@ fn run_diff_case(sh: &Shared, old_k: Kinds, ops: &[Op], mode: u8, verbose: bool)
         }
         Ok(Ok(d)) => {
             if after != want {
+                let tc = ttl_cause(&old_obs, &want, &after).map(|t| format!("|{t}")).unwrap_or_default();
                 report(
                     sh,
-                    "C10|write|content-after-commit!=model",
+                    &format!("C10|write|content-after-commit!=model{tc}"),
                     &|| format!("after the edits the zone holds {} but the edits describe {}", obs_json(&after), obs_json(&want)),
                     &cj,
                 );
@@ -2152,9 +2530,10 @@ fn run_diff_case(sh: &Shared, old_k: Kinds, ops: &[Op], mode: u8, verbose: bool)
                         Some(k) => {
                             let pat = edit_pattern(ops, &old_obs, &d, &after);
                             lcount(&format!("D:diff-wrong:{pat}:{k}"));
+                            let tc = diff_ttl_cause(&old_obs, &d, &after).map(|t| format!("|{t}")).unwrap_or_default();
                             report(
                                 sh,
-                                &format!("C10|diff|write-interface|{pat}"),
+                                &format!("C10|diff|write-interface|{pat}{tc}"),
                                 &|| {
                                     format!(
                                         "diff returned by commit, applied to the old content, does not give the new content ({k}); edits {:?}: removed {} added {}; old {} new {}",
@@ -2177,23 +2556,30 @@ fn run_diff_case(sh: &Shared, old_k: Kinds, ops: &[Op], mode: u8, verbose: bool)
 }
 
 fn run_diff_part(sh: &Shared, b: &Bounds) {
-    let alpha = op_alphabet();
+    let zones: Vec<Kinds> = (0..64).map(kinds_of).collect();
+    run_diff_space(sh, &zones, &op_alphabet(), b.diff_len, [0; 3]);
+}
+
+/// Every edit sequence over `alpha` up to `max_len` on every zone of `zones`, both commit modes.
+fn run_diff_space(sh: &Shared, zones: &[Kinds], alpha: &[Op], max_len: usize, plan: [u8; 3]) {
     let a = alpha.len();
     let mut tasks = vec![];
-    for zi in 0..64usize {
+    for zi in 0..zones.len() {
         for first in 0..a {
             tasks.push((zi, first));
         }
     }
     // length 0 and 1
-    (0..64usize).into_par_iter().for_each(|zi| {
-        for mode in 0..2u8 {
-            run_diff_case(sh, kinds_of(zi), &[], mode, false);
-        }
+    zones.par_iter().for_each(|z| {
+        with_soa_plan(plan, || {
+            for mode in 0..2u8 {
+                run_diff_case(sh, *z, &[], mode, false);
+            }
+        })
     });
-    tasks.par_iter().for_each(|(zi, first)| {
-        let old_k = kinds_of(*zi);
-        for len in 1..=b.diff_len {
+    tasks.par_iter().for_each(|(zi, first)| with_soa_plan(plan, || {
+        let old_k = zones[*zi];
+        for len in 1..=max_len {
             for idx in 0..pow(a, len - 1) {
                 let mut rest = vec![];
                 nth_string(&alpha, len - 1, idx, &mut rest);
@@ -2204,7 +2590,26 @@ fn run_diff_part(sh: &Shared, b: &Bounds) {
                 }
             }
         }
-    });
+    }));
+}
+
+/// The edits of part L: a.z gets every RRset kind under every TTL of the menu
+/// or loses an RRset, b.a.z gets a TXT RRset with one of two TTLs or loses it,
+/// or everything is removed.
+fn ttl_op_alphabet() -> Vec<Op> {
+    let mut v = vec![];
+    for k in 1..=4u8 {
+        for t in 0..TTLS.len() as u8 {
+            v.push(Op::Upd(1, kt(k, t)));
+        }
+    }
+    v.push(Op::Rem(1, 0));
+    v.push(Op::Rem(1, 1));
+    v.push(Op::Upd(2, kt(3, 0)));
+    v.push(Op::Upd(2, kt(3, 1)));
+    v.push(Op::Rem(2, 1));
+    v.push(Op::RemAll);
+    v
 }
 
 // ====================================================================
@@ -2260,14 +2665,14 @@ async fn edit_to(zone: &Zone, from: &BTreeSet<MRec>, to: &BTreeSet<MRec>, serial
         }
         let node = node_for(&root, k.0).await.map_err(|e| format!("update_child:{e}"))?;
         match rt.get(&k) {
-            Some(set) => {
+            Some((ttl, set)) => {
                 let rds: Vec<RD> = set.iter().cloned().collect();
-                node.update_rrset(shared_rrset(&rds)).await.map_err(|e| format!("update_rrset:{e}"))?
+                node.update_rrset(shared_rrset(&rds, *ttl)).await.map_err(|e| format!("update_rrset:{e}"))?
             }
             None => node.remove_rrset(Rtype::from_int(k.1)).await.map_err(|e| format!("remove_rrset:{e}"))?,
         }
     }
-    root.update_rrset(shared_rrset(&[RD::Soa(serial)])).await.map_err(|e| format!("update_rrset(soa):{e}"))?;
+    root.update_rrset(soa_rrset(serial)).await.map_err(|e| format!("update_rrset(soa):{e}"))?;
     drop(root);
     w.commit(false).await.map_err(|e| format!("commit:{e}"))
 }
@@ -2425,12 +2830,13 @@ fn run_sender_case(sh: &Shared, ks: &[Kinds], rq: &SReq, verbose: bool) {
         l.transitions += versions.len() as u64;
     });
     let mut key = vec![0x5, scheme() as u8];
+    key.extend_from_slice(&soa_plan());
     for k in ks {
         key.extend_from_slice(k);
     }
     key.extend_from_slice(format!("{rq:?}").as_bytes());
     sh.stats.distinct(fnv(&key));
-    let cj = || json!({"part": "S", "scheme": scheme(), "zones": ks, "request": sreq_json(rq)});
+    let cj = || json!({"part": "S", "scheme": scheme(), "soa_plan": soa_plan(), "zones": ks, "request": sreq_json(rq)});
     let rname = format!(
         "{}/{}{}{}{}",
         if rq.qtype == 252 { "axfr" } else { "ixfr" },
@@ -2712,6 +3118,196 @@ fn run_serial_part(sh: &Shared, b: &Bounds) {
     });
 }
 
+
+// ====================================================================
+// Part L: the TTL axis
+// ====================================================================
+//
+// Everything above runs with one TTL (3600) and one SOA (TTL 3600, fixed
+// timers).  Part L re-runs the same parts, with the same oracles (every zone
+// comparison is TTL-exact: `CRec` holds the TTL), on zones whose RRsets take
+// their TTL from the menu TTLS = {3600, 300, 0, 2^31-1} and whose SOA takes
+// TTL and timers from the menu SOAVS:
+//  * L/R: every ordered pair of the TTL universe (a.z: nothing or {A{1},
+//    A{1,2}, TXT} x 4 TTLs; b.a.z: nothing or TXT with TTL 300 [thorough:
+//    or 3600]) - an RRset changes only its TTL (raised / lowered), changes
+//    TTL while it gains, loses or replaces records, appears, disappears,
+//    alone or together with a second RRset - through AXFR, AXFR-style IXFR,
+//    IXFR RR granular (RFC 1995: TTL change = delete + add), RRset granular
+//    and "added records carry the new TTL" (see `ixfr_seq`), all splits up to
+//    6 RRs [8], beyond that <=2 cuts + one RR per message; 2-step IXFR through
+//    every mid (incl. TTL there and back) on the 7-zone small universe;
+//    faults on four pairs [all pairs of the small universe].
+//  * L/SOA: every SOA plan (variant of version 1, 2 [and 3]) x 5 content
+//    pairs (incl. no content change at all), same streams, 2-step with the
+//    SOA of the mid version, faults under four plans.
+//  * L/D: every edit sequence <= 2 over the TTL edit alphabet on every zone
+//    of the TTL universe, both commit modes; edit sequences <= 1 under every
+//    SOA plan (explicitly written SOA of another variant; bumped SOA keeps
+//    TTL and timers).
+//  * L/S: the real sender edited from `old` to `new` (TTL-only edits
+//    included) answers AXFR / IXFR requests; reference + real receiver as in
+//    part S; also under SOA plans.
+//  * L/W, L/H: stream client and histories on the small universe and under
+//    SOA plans.
+
+fn is_base(k: Kinds) -> bool {
+    k.iter().all(|v| v >> 3 == 0)
+}
+
+fn ttl_sender_requests() -> Vec<SReq> {
+    let base = SReq { qtype: 252, serial: None, udp: false, limit: u16::MAX, compat: false, via_client: false, provider: 0, foreign: false };
+    let mut v = vec![base.clone(), SReq { limit: 90, ..base.clone() }, SReq { compat: true, ..base.clone() }];
+    for serial in [0u32, 1, 2, 3] {
+        v.push(SReq { qtype: 251, serial: Some(serial), ..base.clone() });
+    }
+    for limit in [130u16, 90] {
+        v.push(SReq { qtype: 251, serial: Some(1), limit, ..base.clone() });
+    }
+    v.push(SReq { qtype: 251, serial: Some(1), via_client: true, ..base.clone() });
+    v.push(SReq { qtype: 251, serial: Some(1), udp: true, limit: 512, ..base.clone() });
+    v.push(SReq { qtype: 251, serial: Some(1), provider: 1, ..base.clone() });
+    v
+}
+
+fn soa_plans(third_free: bool, menu: &[u8]) -> Vec<[u8; 3]> {
+    let mut v = vec![];
+    for v1 in menu {
+        for v2 in menu {
+            if third_free {
+                for v3 in menu {
+                    v.push([*v1, *v2, *v3]);
+                }
+            } else {
+                v.push([*v1, *v2, *v1]);
+            }
+        }
+    }
+    v.retain(|p| *p != [0, 0, 0]);
+    v
+}
+
+fn run_ttl_part(sh: &Shared, b: &Bounds) {
+    let wide = b.ttl_wide;
+    let uid: u8 = if wide { 2 } else { 1 };
+    let uni = ttl_universe(wide);
+    let small = ttl_small_universe();
+    let all_variants: Vec<u8> = (0..SOAVS.len() as u8).collect();
+    let (e, a1, a2) = ([0u8, 0, 0], [1u8, 0, 0], [kt(2, 1), 0, 0]);
+    let upto = if wide { 8 } else { 6 };
+    // ---- L/R: all pairs of the TTL universe (the pairs of the small universe follow with 2-step streams)
+    let rb = Bounds { max_dist: 2, all_splits_upto: upto, both_qmodes: false, mid_first: 0, mid_second: 0, faults: false, ..*b };
+    let mut pairs = vec![];
+    for o in &uni {
+        for n in &uni {
+            if !(is_base(*o) && is_base(*n)) && !(small.contains(o) && small.contains(n)) {
+                pairs.push((*o, *n));
+            }
+        }
+    }
+    lcount(&format!("L:ttl-universe={}:pairs={}", uni.len(), pairs.len() + small.len() * small.len()));
+    pairs.par_iter().for_each(|(o, n)| with_universe(uid, || run_pair(sh, *o, *n, &rb)));
+    let fault_pairs = [([kt(1, 1), 0, 0], [kt(2, 0), 0, 0]), ([kt(2, 0), 0, 0], [kt(1, 1), 0, 0]), ([kt(1, 1), 0, 0], [kt(1, 3), 0, 0]), ([kt(2, 3), 0, 0], [kt(2, 0), 0, 0])];
+    let sb = Bounds { max_dist: 2, all_splits_upto: upto, both_qmodes: false, mid_first: 1, mid_second: 1, fault_dist: 1, fault_cuts: 1, ..*b };
+    let mut spairs = vec![];
+    for o in &small {
+        for n in &small {
+            spairs.push((*o, *n));
+        }
+    }
+    spairs.par_iter().for_each(|(o, n)| with_universe(3, || run_pair(sh, *o, *n, &Bounds { faults: wide || fault_pairs.contains(&(*o, *n)), ..sb })));
+    // ---- L/SOA
+    let content_pairs = [(e, e), (a1, a1), (a1, a2), (a2, a1), (e, a1)];
+    let fault_plans = [[0u8, 1, 0], [1, 0, 1], [0, 4, 0], [5, 0, 5]];
+    let mut work = vec![];
+    for plan in soa_plans(wide, &all_variants) {
+        for cp in content_pairs {
+            work.push((plan, cp));
+        }
+    }
+    lcount(&format!("L:soa-plans-x-content-pairs={}", work.len()));
+    work.par_iter().for_each(|(plan, (o, n))| {
+        let faults = fault_plans.contains(plan) && *o == a1;
+        with_soa_plan(*plan, || with_universe(4, || run_pair(sh, *o, *n, &Bounds { faults, ..sb })))
+    });
+    // ---- L/D
+    run_diff_space(sh, &uni, &ttl_op_alphabet(), b.diff_len.min(2), [0; 3]);
+    if wide {
+        run_diff_space(sh, &small, &ttl_op_alphabet(), 3, [0; 3]);
+    }
+    for v1 in &all_variants {
+        for v2 in &all_variants {
+            if (*v1, *v2) != (0, 0) {
+                run_diff_space(sh, &soa_axis_zones(), &op_alphabet(), 1, [*v1, *v2, 0]);
+            }
+        }
+    }
+    // ---- L/S
+    let mut chains: Vec<([u8; 3], Vec<Kinds>)> = vec![];
+    let suni = ttl_universe(false);
+    for o in &suni {
+        for n in &suni {
+            let d = dist(*o, *n);
+            if d >= 1 && d <= b.sender_dist && !(is_base(*o) && is_base(*n)) {
+                chains.push(([0; 3], vec![*o, *n]));
+            }
+        }
+    }
+    for o in &small {
+        for m in &small {
+            for n in &small {
+                if o != m && m != n && !(is_base(*o) && is_base(*m) && is_base(*n)) {
+                    chains.push(([0; 3], vec![*o, *m, *n]));
+                }
+            }
+        }
+    }
+    for plan in soa_plans(false, &all_variants) {
+        for ks in [vec![a1, a1], vec![a1, a2], vec![e, a1], vec![a1, a2, a1]] {
+            chains.push((plan, ks));
+        }
+    }
+    lcount(&format!("L:S:version-chains={}", chains.len()));
+    let reqs = ttl_sender_requests();
+    chains.par_iter().for_each(|(plan, ks)| {
+        with_soa_plan(*plan, || {
+            for rq in &reqs {
+                if rq.serial.map(|s| s as usize > ks.len()).unwrap_or(false) {
+                    continue;
+                }
+                run_sender_case(sh, ks, rq, false);
+            }
+        })
+    });
+    // ---- L/W
+    let wb = Bounds { wire_faults: false, wire_all_splits_upto: 0, mid_first: 0, mid_second: 0, ..*b };
+    let mut wwork: Vec<([u8; 3], Kinds, Kinds)> = vec![];
+    for (o, n) in &spairs {
+        if !(is_base(*o) && is_base(*n)) {
+            wwork.push(([0; 3], *o, *n));
+        }
+    }
+    for plan in soa_plans(false, &all_variants) {
+        wwork.push((plan, a1, a1));
+        wwork.push((plan, a1, a2));
+    }
+    wwork.par_iter().for_each(|(plan, o, n)| with_soa_plan(*plan, || with_universe(3, || run_wire_pair(sh, *o, *n, &wb))));
+    // ---- L/H
+    let mids = if wide { 1 } else { 0 };
+    let hb = Bounds { hist_aborts: if wide { 2 } else { 1 }, hist_all_mids: false, mid_first: mids, mid_second: mids, ..*b };
+    let mut hwork: Vec<([u8; 3], u8, Kinds, Kinds)> = vec![];
+    for (o, n) in &spairs {
+        if o != n {
+            hwork.push(([0; 3], 3, *o, *n));
+        }
+    }
+    for plan in soa_plans(false, &[0, 1, 4, 5]) {
+        hwork.push((plan, 4, a1, a1));
+        hwork.push((plan, 4, a1, a2));
+    }
+    hwork.par_iter().for_each(|(plan, u, o, n)| with_soa_plan(*plan, || with_universe(*u, || run_history_pair(sh, *o, *n, &hb))));
+}
+
 fn replay_sender(sh: &Shared, case: &Value) {
     let ks: Vec<Kinds> = case["zones"]
         .as_array()
@@ -2841,7 +3437,7 @@ struct HistCase<'a> {
 }
 
 fn hist_json(h: &HistCase) -> Value {
-    json!({"part": "H", "scheme": scheme(), "old": h.old_k, "u1": h.st.label, "u1_kinds": h.st.kinds, "cut": h.cut, "abort": h.abort, "new2": h.new2_k, "form": h.form})
+    json!({"part": "H", "scheme": scheme(), "soa_plan": soa_plan(), "universe": universe_id(), "old": h.old_k, "u1": h.st.label, "u1_kinds": h.st.kinds, "cut": h.cut, "abort": h.abort, "new2": h.new2_k, "form": h.form})
 }
 
 fn run_history_case(sh: &Shared, h: &HistCase, verbose: bool) {
@@ -2878,9 +3474,9 @@ fn run_history_case(sh: &Shared, h: &HistCase, verbose: bool) {
     let serial2 = base_serial + 10;
     let want = model_obs(serial2, &new2);
     let (seq2, qtype2, mask2) = match h.form {
-        0 => (ixfr_seq(&[(base_serial, base.clone()), (serial2, new2.clone())], false), 251u16, 0u32),
+        0 => (ixfr_seq(&[(base_serial, base.clone()), (serial2, new2.clone())], 0), 251u16, 0u32),
         1 => {
-            let s = ixfr_seq(&[(base_serial, base.clone()), (serial2, new2.clone())], false);
+            let s = ixfr_seq(&[(base_serial, base.clone()), (serial2, new2.clone())], 0);
             let m = (1u32 << (s.len() - 1)) - 1;
             (s, 251, m)
         }
@@ -2905,7 +3501,8 @@ fn run_history_case(sh: &Shared, h: &HistCase, verbose: bool) {
         l.states.insert(obs_hash(&after_abort));
         l.states.insert(obs_hash(&final_obs));
     });
-    let mut key = vec![0x48, h.cut as u8, h.abort, h.form];
+    let mut key = vec![0x48, h.cut as u8, h.abort, h.form, universe_id()];
+    key.extend_from_slice(&soa_plan());
     key.extend_from_slice(&h.old_k);
     key.extend_from_slice(&h.new2_k);
     key.extend_from_slice(h.st.label.as_bytes());
@@ -2945,9 +3542,10 @@ fn run_history_case(sh: &Shared, h: &HistCase, verbose: bool) {
         report(sh, &format!("C10|history|{u1}|aborted-update-reported-finished"), &|| "an update whose stream was cut is reported as finished".into(), &cj);
     }
     if after_abort != base_obs {
+        let tc = ttl_cause(&old_obs, &base_obs, &after_abort).map(|t| format!("|{t}")).unwrap_or_default();
         report(
             sh,
-            &format!("C10|history|{u1}|{phase}|partial-update-visible-after-abort"),
+            &format!("C10|history|{u1}|{phase}|partial-update-visible-after-abort{tc}"),
             &|| format!("after the aborted update a new reader sees {} instead of {}", obs_json(&after_abort), obs_json(&base_obs)),
             &cj,
         );
@@ -2955,9 +3553,10 @@ fn run_history_case(sh: &Shared, h: &HistCase, verbose: bool) {
     match &out2 {
         Ok(Outcome::Finished) => {
             if final_obs != want {
+                let tc = ttl_cause(&base_obs, &want, &final_obs).map(|t| format!("|{t}")).unwrap_or_default();
                 report(
                     sh,
-                    &format!("C10|history|{u1}|{phase}|aborted-update-leaks-into-the-next-committed-version"),
+                    &format!("C10|history|{u1}|{phase}|aborted-update-leaks-into-the-next-committed-version{tc}"),
                     &|| {
                         format!(
                             "after an aborted {u1} update ({phase}) a complete update to {} leaves the zone at {}: edits of the aborted update were published by the later commit",
@@ -3007,35 +3606,37 @@ fn run_history_part(sh: &Shared, b: &Bounds) {
             }
         }
     }
-    pairs.par_iter().for_each(|(old_k, new1_k)| {
-        for st in streams_for(*old_k, *new1_k, b) {
-            // (a first step without change adds nothing over the 1-step stream)
-            if st.kinds.len() == 3 && (st.kinds[1] == st.kinds[0] || st.kinds[1] == st.kinds[2]) && !b.hist_all_mids {
-                continue;
-            }
-            let n = st.seq.len();
-            for cut in 1..n {
-                for abort in 0..b.hist_aborts {
-                    // the version after the abort decides which U2 are enumerated: do it per candidate base
-                    for new2_i in 0..64 {
-                        let new2_k = kinds_of(new2_i);
-                        // cheap pre-filter: new2 within one RRset of some version of U1
-                        if !st.kinds.iter().any(|k| dist(*k, new2_k) <= 1) {
+    pairs.par_iter().for_each(|(old_k, new1_k)| run_history_pair(sh, *old_k, *new1_k, b));
+}
+
+fn run_history_pair(sh: &Shared, old_k: Kinds, new1_k: Kinds, b: &Bounds) {
+    let uni = universe();
+    for st in streams_for(old_k, new1_k, b) {
+        // (a first step without change adds nothing over the 1-step stream)
+        if st.kinds.len() == 3 && (st.kinds[1] == st.kinds[0] || st.kinds[1] == st.kinds[2]) && !b.hist_all_mids {
+            continue;
+        }
+        let n = st.seq.len();
+        for cut in 1..n {
+            for abort in 0..b.hist_aborts {
+                // the version after the abort decides which U2 are enumerated: do it per candidate base
+                for new2_k in uni.iter().cloned() {
+                    // cheap pre-filter: new2 within one RRset of some version of U1
+                    if !st.kinds.iter().any(|k| dist(*k, new2_k) <= 1) {
+                        continue;
+                    }
+                    for form in 0..3u8 {
+                        if dry() {
+                            lcount("dry:H");
                             continue;
                         }
-                        for form in 0..3u8 {
-                            if dry() {
-                                lcount("dry:H");
-                                continue;
-                            }
-                            let h = HistCase { old_k: *old_k, st: &st, cut, abort, new2_k, form };
-                            run_history_case(sh, &h, false);
-                        }
+                        let h = HistCase { old_k, st: &st, cut, abort, new2_k, form };
+                        run_history_case(sh, &h, false);
                     }
                 }
             }
         }
-    });
+    }
 }
 
 fn replay_history(sh: &Shared, case: &Value, b: &Bounds) {
@@ -3441,16 +4042,18 @@ fn main() {
     let ctx = Ctx::new("C10", "model_checking");
     let sh = Shared { ctx: ctx.clone(), stats: Stats::new(), seen: Default::default(), sample_keys: Default::default(), samples: Default::default() };
     let b = if ctx.quick() {
-        Bounds { max_dist: 2, all_splits_upto: 8, both_qmodes: false, mid_first: 1, mid_second: 1, fault_dist: 1, fault_cuts: 1, diff_len: 2, sender_dist: 1, hist_dist: 1, hist_aborts: 2, hist_all_mids: false, tsig_extra_max: 230, wire_dist: 1, wire_all_splits_upto: 0, wire_faults: true }
+        Bounds { max_dist: 2, all_splits_upto: 8, both_qmodes: false, mid_first: 1, mid_second: 1, fault_dist: 1, fault_cuts: 1, diff_len: 2, sender_dist: 1, hist_dist: 1, hist_aborts: 2, hist_all_mids: false, tsig_extra_max: 230, wire_dist: 1, wire_all_splits_upto: 0, wire_faults: true, faults: true, ttl_wide: false }
     } else {
-        Bounds { max_dist: 3, all_splits_upto: 10, both_qmodes: true, mid_first: 1, mid_second: 2, fault_dist: 2, fault_cuts: 2, diff_len: 3, sender_dist: 2, hist_dist: 2, hist_aborts: 2, hist_all_mids: true, tsig_extra_max: 230, wire_dist: 2, wire_all_splits_upto: 8, wire_faults: true }
+        Bounds { max_dist: 3, all_splits_upto: 10, both_qmodes: true, mid_first: 1, mid_second: 2, fault_dist: 2, fault_cuts: 2, diff_len: 3, sender_dist: 2, hist_dist: 2, hist_aborts: 2, hist_all_mids: true, tsig_extra_max: 230, wire_dist: 2, wire_all_splits_upto: 8, wire_faults: true, faults: true, ttl_wide: true }
     };
     let mut npairs = 0;
     if let Some(p) = &ctx.replay {
         let text = std::fs::read_to_string(p).expect("replay file");
         let v: Value = serde_json::from_str(&text).expect("replay json");
         let sc = v["case"]["scheme"].as_u64().unwrap_or(0) as usize;
-        with_scheme(sc.min(SCHEMES.len() - 1), || replay(&sh, &v["case"], &b));
+        let plan = plan_from_json(&v["case"]["soa_plan"]);
+        let uni = v["case"]["universe"].as_u64().unwrap_or(0) as u8;
+        with_scheme(sc.min(SCHEMES.len() - 1), || with_soa_plan(plan, || with_universe(uni, || replay(&sh, &v["case"], &b))));
     } else {
         let mut pairs = vec![];
         for oi in 0..64 {
@@ -3462,20 +4065,25 @@ fn main() {
         }
         npairs = pairs.len();
         let t0 = std::time::Instant::now();
-        pairs.par_iter().for_each(|(o, n)| run_pair(&sh, *o, *n, &b));
-        eprintln!("parts R+F done at {:.1}s ({} evaluations)", t0.elapsed().as_secs_f64(), sh.stats.evals());
-        run_diff_part(&sh, &b);
-        eprintln!("part D done at {:.1}s ({} evaluations)", t0.elapsed().as_secs_f64(), sh.stats.evals());
-        run_sender_part(&sh, &b);
-        eprintln!("part S done at {:.1}s ({} evaluations)", t0.elapsed().as_secs_f64(), sh.stats.evals());
-        run_serial_part(&sh, &b);
-        eprintln!("serial schemes done at {:.1}s ({} evaluations)", t0.elapsed().as_secs_f64(), sh.stats.evals());
-        run_wire_part(&sh, &b);
-        eprintln!("part W done at {:.1}s ({} evaluations)", t0.elapsed().as_secs_f64(), sh.stats.evals());
-        run_history_part(&sh, &b);
-        eprintln!("part H done at {:.1}s ({} evaluations)", t0.elapsed().as_secs_f64(), sh.stats.evals());
-        run_tsig_part(&sh, &b);
-        eprintln!("part T done at {:.1}s ({} evaluations)", t0.elapsed().as_secs_f64(), sh.stats.evals());
+        // (C10_ONLY_L=1: only part L, a development aid like C10_DRY)
+        if std::env::var("C10_ONLY_L").is_err() {
+            pairs.par_iter().for_each(|(o, n)| run_pair(&sh, *o, *n, &b));
+            eprintln!("parts R+F done at {:.1}s ({} evaluations)", t0.elapsed().as_secs_f64(), sh.stats.evals());
+            run_diff_part(&sh, &b);
+            eprintln!("part D done at {:.1}s ({} evaluations)", t0.elapsed().as_secs_f64(), sh.stats.evals());
+            run_sender_part(&sh, &b);
+            eprintln!("part S done at {:.1}s ({} evaluations)", t0.elapsed().as_secs_f64(), sh.stats.evals());
+            run_serial_part(&sh, &b);
+            eprintln!("serial schemes done at {:.1}s ({} evaluations)", t0.elapsed().as_secs_f64(), sh.stats.evals());
+            run_wire_part(&sh, &b);
+            eprintln!("part W done at {:.1}s ({} evaluations)", t0.elapsed().as_secs_f64(), sh.stats.evals());
+            run_history_part(&sh, &b);
+            eprintln!("part H done at {:.1}s ({} evaluations)", t0.elapsed().as_secs_f64(), sh.stats.evals());
+            run_tsig_part(&sh, &b);
+            eprintln!("part T done at {:.1}s ({} evaluations)", t0.elapsed().as_secs_f64(), sh.stats.evals());
+        }
+        run_ttl_part(&sh, &b);
+        eprintln!("part L done at {:.1}s ({} evaluations)", t0.elapsed().as_secs_f64(), sh.stats.evals());
     }
     // merge the per-thread statistics
     let mut locals: Vec<Local> = rayon::broadcast(|_| LOCAL.with(|l| std::mem::take(&mut *l.borrow_mut())));
@@ -3498,7 +4106,7 @@ fn main() {
             "traces_validated_against_impl": total.runs,
             "evaluations": sh.stats.evals(),
             "distinct_nontrivial": sh.stats.distinct_count(),
-            "rule": "distinct (old zone, exact response octets) receiver cases with >=2 messages, a fault, or a changed zone; plus distinct (old zone, non-empty edit sequence, commit mode) diff cases; plus distinct (old,mid,new,request) sender cases; plus distinct (old, first stream, cut, abort kind, second target, second form) histories; plus distinct (RNAME extension, request kind) TSIG sender cases; part W cases count like part R/F cases",
+            "rule": "(part L cases count like the cases of the part they re-run, with the SOA plan in the key) distinct (old zone, exact response octets) receiver cases with >=2 messages, a fault, or a changed zone; plus distinct (old zone, non-empty edit sequence, commit mode) diff cases; plus distinct (old,mid,new,request) sender cases; plus distinct (old, first stream, cut, abort kind, second target, second form) histories; plus distinct (RNAME extension, request kind) TSIG sender cases; part W cases count like part R/F cases",
             "exhaustive": true,
             "bounds": {
                 "zones": 64, "ordered_pairs": npairs, "pair_distance": b.max_dist, "all_splits_up_to_rrs": b.all_splits_upto, "beyond": "all splits with <=2 cuts + one RR per message",
@@ -3507,6 +4115,7 @@ fn main() {
                 "history": format!("first update: every stream of pairs 1..={} RRsets apart{}, one RR per message, cut after every RR, {} abort kinds; second update: 3 forms to every zone <=1 RRset from the version reached", b.hist_dist, if b.hist_all_mids { " (all 2-step mids)" } else { " (2-step mids different from both ends)" }, b.hist_aborts),
                 "serial_schemes": format!("{:?} as (start, step); part S complete under all, parts R (pairs <=1 apart, <=1 cut + one RR per message) and D (<=1 edit) under schemes 1..", SCHEMES),
                 "wire_stream_client": format!("pairs <={} RRsets apart, serial schemes 0 and 1, honest splits: {}, all faults on the single-message and one-RR-per-message packagings (scheme 0)", b.wire_dist, if b.wire_all_splits_upto > 0 { format!("all up to {} RRs, beyond <=1 cut + one RR per message", b.wire_all_splits_upto) } else { "<=1 cut + one RR per message".to_string() }),
+                "ttl_axis": format!("part L: RRset TTL menu {:?}, SOA menu (TTL index, [refresh, retry, expire, minimum]) {:?}; TTL universe of {} zones (a.z: none | A,Ax2,TXT x TTL; b.a.z: none | TXT x {} TTLs), all ordered pairs through axfr / axfr-style ixfr / ixfr RR-granular, RRset-granular, added-records-carry-new-ttl, all splits up to {} RRs; 2-step streams and faults on the 7-zone sub-universe (faults: {}); SOA plans {} x 5 content pairs; diff edits: {} ops, sequences <= {}{}; sender: TTL pairs <= {} RRset apart + 3-chains of the sub-universe + SOA plans x 4 chains, 12 request kinds; stream client and histories on the sub-universe and under SOA plans", TTLS, SOAVS, ttl_universe(b.ttl_wide).len(), if b.ttl_wide { 2 } else { 1 }, if b.ttl_wide { 8 } else { 6 }, if b.ttl_wide { "all pairs" } else { "4 pairs" }, if b.ttl_wide { "v1 x v2 x v3 (215)" } else { "v1 x v2, v3 = v1 (35)" }, ttl_op_alphabet().len(), b.diff_len.min(2), if b.ttl_wide { " (3 on the sub-universe)" } else { "" }, b.sender_dist),
                 "tsig_sender": format!("SOA + {} TXT records of {} octets, RNAME extension 0 and 2..={} octets, 4 request kinds", FILLERS, FILL_TXT, b.tsig_extra_max),
             },
             "histogram": total.counters,
